@@ -82,6 +82,10 @@ func FullMenu(n *Node, slot uint64) []Choice {
 		add(&Plan{Name: fmt.Sprintf("proposer-slashing(%d)", cands[0]), ProposerSlashings: []uint64{cands[0]}})
 		add(&Plan{Name: fmt.Sprintf("attester-slashing(%d)", cands[0]), AttesterSlashings: [][]uint64{{cands[0]}}})
 		add(&Plan{Name: fmt.Sprintf("exit(%d)", cands[0]), Exits: []uint64{cands[0]}})
+		if c.EpochAtSlot(slot) >= 1 {
+			// dated (and signed) for the previous epoch: before the latest fork whenever the fork epoch is the current one
+			add(&Plan{Name: fmt.Sprintf("exit-dated-previous-epoch(%d)", cands[0]), Exits: []uint64{cands[0]}, ExitEpochBack: 1})
+		}
 	}
 	if len(cands) >= 3 && slot >= 1 {
 		srt := []uint64{cands[2], cands[1], cands[0]} // ascending (candidates are collected descending)
@@ -144,15 +148,28 @@ func Scenarios(tier string) []*Scenario {
 		}}
 	// deposits: new validators / top-ups / invalid proof-of-possession become known at slot 1 and
 	// every block votes for the eth1 data that commits to them
-	dep := &Scenario{Name: "deposits/all-forks", Preset: T4(AllForks), Slots: 24, Menu: SmallMenu, NKeys: 24,
+	dep := &Scenario{Name: "deposits/all-forks", Preset: T4(AllForks), Slots: 24, NKeys: 24,
 		Default: func(slot uint64) Choice {
 			p := &Plan{Name: "default+eth1vote", Eth1Flip: true}
 			if slot == 1 {
 				p.AddDeposits = []DepSpec{{Key: 16, Amount: 32_000_000_000}, {Key: 3, Amount: 1_000_000_000}, {Key: 17, Amount: 32_000_000_000, BadSig: true},
-					{Key: 18, Amount: 31_000_000_000}, {Key: 16, Amount: 2_000_000_000}, {Key: 19, Amount: 32_000_000_000}, {Key: 18, Amount: 1_000_000_000}}
-				p.Name = "default+eth1vote+7 new deposits"
+					{Key: 18, Amount: 31_000_000_000}, {Key: 16, Amount: 2_000_000_000}, {Key: 19, Amount: 32_000_000_000}, {Key: 18, Amount: 1_000_000_000},
+					{Key: 5, Amount: 1_000_000_000, ZeroSig: true}, {Key: 20, Amount: 32_000_000_000, ZeroSig: true}}
+				p.Name = "default+eth1vote+9 new deposits"
 			}
 			return Choice{Plan: p}
+		},
+		// the sibling histories learn of OTHER deposits at slot 1: the same validator indices get other keys than on
+		// the base history (whose entries are already in the shared pubkey cache), top-ups hit other validators
+		Menu: func(n *Node, slot uint64) []Choice {
+			out := SmallMenu(n, slot)
+			if slot == 1 {
+				out = append(out,
+					Choice{Plan: &Plan{Name: "other-deposits:keys-in-other-order", Eth1Flip: true, AddDeposits: []DepSpec{{Key: 19, Amount: 32_000_000_000}, {Key: 16, Amount: 32_000_000_000},
+						{Key: 7, Amount: 2_000_000_000, BadSig: true}, {Key: 18, Amount: 32_000_000_000}, {Key: 19, Amount: 1_000_000_000, ZeroSig: true}}}},
+					Choice{Plan: &Plan{Name: "other-deposits:one-new-key", Eth1Flip: true, AddDeposits: []DepSpec{{Key: 21, Amount: 32_000_000_000}, {Key: 21, Amount: 1_000_000_000, BadSig: true}}}})
+			}
+			return out
 		}}
 	phase0only := &Scenario{Name: "healthy/phase0-only", Preset: T4([5]uint64{0, Far, Far, Far, Far}), Slots: 20, Default: defaultBlock, Menu: FullMenu, NKeys: 24}
 	altairLong := &Scenario{Name: "healthy/altair-at-1", Preset: T4([5]uint64{0, 1, Far, Far, Far}), Slots: 24, Default: defaultBlock, Menu: FullMenu, NKeys: 24}
@@ -169,10 +186,22 @@ func Scenarios(tier string) []*Scenario {
 		return 32_000_000_000
 	}
 	eject := &Scenario{Name: "leak+eject/all-forks", Preset: ejectP, Slots: 32, Menu: SmallMenu, NKeys: 24, Default: leak.Default}
+	// mass ejection: the ejection balance equals the maximum effective balance, so the first epoch transition
+	// ejects the whole registry at once and the exit queue (churn limit 2) is filled epoch after epoch
+	massP := T4(AllForks)
+	massP.Name = "T4-mass-eject"
+	massP.EjectionBalance = 32_000_000_000
+	mass := &Scenario{Name: "mass-ejection/all-forks", Preset: massP, Slots: 20, Menu: SmallMenu, NKeys: 24, Default: defaultBlock}
+	// withdrawals: every validator has an execution address; from capella on every payload carries the maximum
+	// number of withdrawals and the sweep wraps around the registry every 8 blocks
+	wdP := T4(AllForks)
+	wdP.Name = "T4-withdrawals"
+	wdP.AllEth1Creds = true
+	wd := &Scenario{Name: "withdrawals/all-forks", Preset: wdP, Slots: 32, Menu: SmallMenu, NKeys: 24, Default: defaultBlock}
 	if tier == "thorough" {
-		return []*Scenario{healthy, leak, dep, phase0only, altairLong, sameEpoch, eject}
+		return []*Scenario{healthy, leak, dep, phase0only, altairLong, sameEpoch, eject, mass, wd}
 	}
-	return []*Scenario{healthy, leak, dep, phase0only}
+	return []*Scenario{healthy, leak, dep, phase0only, mass, wd}
 }
 
 // SlotMenu: C02 — deviations that shape slot/epoch processing: gaps and registry-changing blocks.
